@@ -43,23 +43,23 @@ type propSpec struct {
 
 func spec(id string) (propSpec, bool) {
 	d := propSpec{Pkg: "./checks/" + strings.ToLower(id), Level: "exploration", QuickShards: 4, ThoroughShards: 16,
-		QuickTimeout: 8 * time.Minute, ThoroughTimeout: 40 * time.Minute}
+		QuickTimeout: 8 * time.Minute, ThoroughTimeout: 90 * time.Minute}
 	switch id {
 	case "C01":
-		d.Fuzz = []fuzzSpec{{"FuzzConvert", 90}}
+		d.Fuzz = []fuzzSpec{{"FuzzConvert", 180}}
 		d.HangIsViolation = true
 	case "C03":
-		d.Fuzz = []fuzzSpec{{"FuzzSafe", 60}}
+		d.Fuzz = []fuzzSpec{{"FuzzSafe", 150}}
 	case "C04":
-		d.Fuzz = []fuzzSpec{{"FuzzURL", 60}}
+		d.Fuzz = []fuzzSpec{{"FuzzURL", 120}}
 	case "C05":
-		d.Fuzz = []fuzzSpec{{"FuzzAST", 60}}
+		d.Fuzz = []fuzzSpec{{"FuzzAST", 150}}
 	case "C07":
 		d.Race = true
 		d.QuickShards = 4
 		d.ThoroughShards = 8
 	case "C12":
-		d.Fuzz = []fuzzSpec{{"FuzzReadOnly", 60}}
+		d.Fuzz = []fuzzSpec{{"FuzzReadOnly", 120}}
 	case "C14":
 		d.Level = "fault_enumeration"
 	case "C02", "C06", "C08", "C09", "C10", "C11", "C13", "C15", "C16", "C17", "C18", "C19", "C20":
@@ -558,7 +558,7 @@ func hangReproduces(bin, pkgDir, file string) bool {
 
 func merge(id, tier string, seed int64, ps propSpec, outDir string, n int) map[string]any {
 	var evals int64
-	distinct := map[uint64]struct{}{}
+	var allHashes []uint64
 	classes := map[string]int64{}
 	excluded := map[string]int64{}
 	var samples []any
@@ -577,9 +577,7 @@ func merge(id, tier string, seed int64, ps propSpec, outDir string, n int) map[s
 			continue
 		}
 		evals += p.Evals
-		for _, h := range p.Distinct {
-			distinct[h] = struct{}{}
-		}
+		allHashes = append(allHashes, p.Distinct...)
 		saturated = saturated || p.Saturated
 		for k, v := range p.Classes {
 			classes[k] += v
@@ -598,6 +596,14 @@ func merge(id, tier string, seed int64, ps propSpec, outDir string, n int) map[s
 			}
 		}
 	}
+	sort.Slice(allHashes, func(i, j int) bool { return allHashes[i] < allHashes[j] })
+	ndistinct := 0
+	for i, h := range allHashes {
+		if i == 0 || h != allHashes[i-1] {
+			ndistinct++
+		}
+	}
+	allHashes = nil
 	rule, _ := notes["rule"].(string)
 	delete(notes, "rule")
 	var assumptions []string
@@ -620,7 +626,7 @@ func merge(id, tier string, seed int64, ps propSpec, outDir string, n int) map[s
 	}
 	cov := map[string]any{
 		"evaluations":         evals,
-		"distinct_nontrivial": len(distinct),
+		"distinct_nontrivial": ndistinct,
 		"rule":                rule,
 		"samples":             samples,
 		"classes":             classes,
